@@ -448,6 +448,10 @@ def run(chk):
             loaded_shared(chk, ex3, cls, found)
         except X.Unsupported as e:
             chk.undecided.append((cls + ".load(shared_memory=True)", "unsupported construct in glue: %s" % e))
+    try:
+        _glue.field_stability(chk, ex3, tables=True)
+    except X.Unsupported as e:
+        chk.undecided.append(("field stability", "unsupported construct in glue: %s" % e))
     bad = found()
     if bad:
         chk.violation("shared-memory:bounded:oracle", {"verdict": "bounded oracle failed"}, bad)
